@@ -235,3 +235,36 @@ def c06_2(run):
 
 from obligations import c05 as _c05
 obligation('C06', 'C06-3 process_proposal accepts an executed block only if both commitments in the block equal the ones regenerated after executing its transactions')(_c05.c06_3)
+
+
+# ----------------------------------------------------------------------------------------------------------------- C06-4
+@obligation('C06', 'C06-4 the space reserved for the two commitments equals their size on the wire (DataItem-encoded: 2 x (tag + length + 32) = 68 bytes; legacy raw: 64), and BlockSizeConstraints::new starts from exactly that reservation')
+def c06_4(run):
+    ex = engine()
+    cands = [n for n in ex.fns if n.endswith('::total_size') and 'closure' not in n and (ex.impl_self(n) or (None, ''))[1].startswith('GeneratedCommitments')]
+    if len(cands) != 1:
+        raise Inconclusive(f'GeneratedCommitments::total_size not found: {cands}')
+    newf = [n for n in ex.fns if n.endswith('::new') and 'closure' not in n and (ex.impl_self(n) or (None, ''))[1] == 'BlockSizeConstraints']
+    if len(newf) != 1:
+        raise Inconclusive(f'BlockSizeConstraints::new not found: {newf}')
+    run.bound(inputs='both values of USES_DATA_ITEM_ENUM; every i64 cometbft_max_size', wire_size='protobuf arithmetic for `DataItem { oneof value { bytes = N } }` with N < 16 and a 32-byte payload: 1 key byte + 1 length byte + 32')
+    wire = {True: 2 * (1 + 1 + 32), False: 64}
+    for flag in (True, False):
+        ex.const_params = {'USES_DATA_ITEM_ENUM': z3.BoolVal(flag)}
+        for i, p in enumerate(run.explore(ex, ex.start(cands[0], []))):
+            if p.kind != 'return':
+                run.prove(f'total_size::<{flag}> does not panic', p.pc, z3.BoolVal(False), detail=p.info); continue
+            run.sample({'uses_data_item_enum': flag, 'total_size': str(z3.simplify(p.result))})
+            run.prove(f'total_size::<{flag}>() equals the wire size of the two commitment items ({wire[flag]} bytes)', p.pc, p.result == z3.BitVecVal(wire[flag], 64))
+        # new(_, flag) calls GeneratedCommitments::<flag>::total_size(): the const generic is bound accordingly
+        mx = z3.BitVec('cometbft_max_size', 64)
+        for i, p in enumerate(run.explore(ex, ex.start(newf[0], [mx, z3.BoolVal(flag)]), allow_havoc=(r'^Arguments::|fmt::',))):
+            if p.kind != 'return':
+                run.prove(f'BlockSizeConstraints::new(_, {flag}) does not panic [path {i}]', p.pc, z3.BoolVal(False), detail=p.info); continue
+            if p.result.discr != 'Ok':
+                run.prove(f'new(_, {flag}) fails only for a negative limit or one below the reservation [path {i}]', p.pc, z3.Or(mx < 0, z3.ULT(mx, z3.BitVecVal(wire[flag], 64))))
+                continue
+            c = ex.deref_val(p, p.result.fields[('Ok', 0)])
+            run.prove(f'new(max, {flag}) => limit = max, nothing sequenced yet, and the cometbft size starts at the commitments\' wire size [path {i}]', p.pc,
+                      z3.And(B.fld(ex, p, c, 'max_size_cometbft', 'usize') == mx, B.fld(ex, p, c, 'current_size_sequencer', 'usize') == 0, B.fld(ex, p, c, 'current_size_cometbft', 'usize') == z3.BitVecVal(wire[flag], 64)))
+    run.require_reached(*run.cur.reach)
